@@ -23,6 +23,9 @@ pub enum Item {
     /// length prefix above the limit, id, filler bytes
     Oversize { len: u32, id: u8, filler: u32 },
     Garbage(Vec<u8>),
+    /// `count` complete unknown-id messages in a row, each with `body` bytes after the id (a long run of messages the
+    /// client has to skip, typically all sitting in its buffer at once)
+    UnknownRun { id: u8, count: u16, body: u8 },
 }
 
 #[derive(Clone, Debug, Serialize, Deserialize)]
@@ -85,6 +88,7 @@ fn item(big: bool) -> BoxedStrategy<Item> {
         1 => (prop_oneof![Just(65537u32), Just(65538), 65537u32..200000, Just(u32::MAX), Just(1 << 31)], prop_oneof![0u8..9, unknown_id()], prop_oneof![Just(0u32), 0u32..200, Just(70000u32)])
             .prop_map(|(len, id, filler)| Item::Oversize { len, id, filler }),
         1 => small_bytes(12).prop_map(Item::Garbage),
+        1 => (unknown_id(), prop_oneof![2 => 2u16..300, 1 => prop::sample::select(vec![1000u16, 4095, 4096, 4097, 5000, 8192, 10000])], 0u8..3).prop_map(|(id, count, body)| Item::UnknownRun { id, count, body }),
     ]
     .boxed()
 }
@@ -137,6 +141,14 @@ fn item_bytes(it: &Item) -> Vec<u8> {
             v
         }
         Item::Garbage(b) => b.clone(),
+        Item::UnknownRun { id, count, body } => {
+            let one = wire::encode(&RFrame::Unknown(*id, vec![0x5A; *body as usize]));
+            let mut v = Vec::with_capacity(one.len() * *count as usize);
+            for _ in 0..*count {
+                v.extend_from_slice(&one);
+            }
+            v
+        }
     }
 }
 
@@ -190,7 +202,7 @@ pub fn check(c: &Case) -> Outcome {
     let (stream, cuts) = build(c);
     let full = wire::decode(&stream);
     // classes
-    let has_unknown = c.items.iter().any(|i| matches!(i, Item::Unknown(..)));
+    let has_unknown = c.items.iter().any(|i| matches!(i, Item::Unknown(..) | Item::UnknownRun { .. }));
     let has_malformed = matches!(full.tail, Tail::Error { .. });
     let cut_in_prefix = cuts.iter().any(|p| {
         // a cut inside some frame's 4-byte length prefix
@@ -216,6 +228,7 @@ pub fn check(c: &Case) -> Outcome {
         r
     };
     o.class_if(has_unknown, "unknown-id");
+    o.class_if(c.items.iter().any(|i| matches!(i, Item::UnknownRun { count, .. } if *count > 4096)), "run-of-more-than-4096-unknown-messages");
     o.class_if(has_malformed, "malformed");
     o.class_if(cut_in_prefix, "cut-inside-length-prefix");
     o.class_if(cut_after_unknown, "cut-right-after-skipped-message");
@@ -641,7 +654,7 @@ fn shorts(v: &[RFrame]) -> Vec<String> {
 pub fn def() -> PropDef {
     PropDef {
         id: "C06",
-        rule: "sub decoder: a stream of 0-7 items {each of the 11 valid message kinds with generated fields, unknown-id messages (never 0x54) with bodies up to 600 B (64 KiB in thorough), fixed-size ids with a wrong length prefix, length prefixes > 65536 followed by up to 70000 filler bytes, raw garbage}, optionally truncated, cut at generated positions (absolute, or relative to item starts: inside length prefixes, right after a skipped message), optionally followed by EOF; fed segment by segment with a quiescence barrier to the real Connection::recv_frame over a socketpair. Oracle on every prefix: frames returned == independent reference decoding of the bytes delivered so far (so a complete message not yet returned fails, and so does any dependence on the cuts); malformed/oversized frames rejected no later than their declared extent (capped at one max frame); EOF inside a frame = error, at a boundary = clean end, never pending; buffer <= 4+65536; no panic. Sub task: the real connection task + manager on the swarm runtime: after a valid prefix (handshake, bitfield, have, keep-alive, unknown-id messages...) a wrong-length message, an oversized frame, a truncated message followed by EOF, or a clean EOF is delivered; the task must report KillReq and finish within the same barrier (not linger until the keep-alive limit), the reason must not be the keep-alive timeout, and the manager must forget the peer. Non-trivial = >= 2 segments and an unknown/malformed item, or a cut inside a length prefix; distinct by hash of the case.",
+        rule: "(items include runs of up to 10000 complete unknown-id messages in one segment) sub decoder: a stream of 0-7 items {each of the 11 valid message kinds with generated fields, unknown-id messages (never 0x54) with bodies up to 600 B (64 KiB in thorough), fixed-size ids with a wrong length prefix, length prefixes > 65536 followed by up to 70000 filler bytes, raw garbage}, optionally truncated, cut at generated positions (absolute, or relative to item starts: inside length prefixes, right after a skipped message), optionally followed by EOF; fed segment by segment with a quiescence barrier to the real Connection::recv_frame over a socketpair. Oracle on every prefix: frames returned == independent reference decoding of the bytes delivered so far (so a complete message not yet returned fails, and so does any dependence on the cuts); malformed/oversized frames rejected no later than their declared extent (capped at one max frame); EOF inside a frame = error, at a boundary = clean end, never pending; buffer <= 4+65536; no panic. Sub task: the real connection task + manager on the swarm runtime: after a valid prefix (handshake, bitfield, have, keep-alive, unknown-id messages...) a wrong-length message, an oversized frame, a truncated message followed by EOF, or a clean EOF is delivered; the task must report KillReq and finish within the same barrier (not linger until the keep-alive limit), the reason must not be the keep-alive timeout, and the manager must forget the peer. Non-trivial = >= 2 segments and an unknown/malformed item, or a cut inside a length prefix; distinct by hash of the case.",
         assumptions: &[
             "a length-prefixed message with id 0x54 is indistinguishable from a handshake for this decoder and is not generated as an 'unknown id'; streams reaching one are compared only up to it",
             "kernel AF_UNIX delivery is synchronous: bytes written by the harness are readable by the client when write returns",
@@ -651,7 +664,7 @@ pub fn def() -> PropDef {
             cases: |t| t.pick(150_000, 2_000_000),
             run: |ctx| run_proptest(ctx, "decoder", strategy(ctx.tier), check),
             replay: |v| replay_case::<Case>(v, check),
-            min_class: &[("unknown-id", 0.2636), ("malformed", 0.15), ("cut-inside-length-prefix", 0.15), ("cut-right-after-skipped-message", 0.03), ("cut-inside-unknown-message", 0.03), ("eof-inside-frame", 0.034), (">=2-segments", 0.3531)],
+            min_class: &[("unknown-id", 0.2636), ("malformed", 0.15), ("cut-inside-length-prefix", 0.15), ("cut-right-after-skipped-message", 0.03), ("cut-inside-unknown-message", 0.03), ("eof-inside-frame", 0.034), (">=2-segments", 0.3531), ("run-of-more-than-4096-unknown-messages", 0.012)],
         },
         Sub {
             name: "raw",
